@@ -93,9 +93,28 @@ def strip_comments(text):
     return "".join(out)
 
 
-def forbidden_words():
+def import_closure(modules):
+    """source files in the import closure of the given B2Z modules (plus the driver)"""
+    seen, todo = set(), list(modules) + ["B2Z.Driver"]
+    while todo:
+        m = todo.pop()
+        if m in seen or not m.startswith("B2Z"):
+            continue
+        seen.add(m)
+        f = LEAN / (m.replace(".", "/") + ".lean")
+        if not f.exists():
+            continue
+        for line in f.read_text().splitlines():
+            if line.startswith("import "):
+                todo.append(line.split()[1])
+    return [LEAN / (m.replace(".", "/") + ".lean") for m in sorted(seen)] + [LEAN / "Main.lean"]
+
+
+def forbidden_words(modules=None):
     hits = []
-    for p in lean_sources():
+    for p in (lean_sources() if modules is None else import_closure(modules)):
+        if not p.exists():
+            continue
         code = strip_comments(p.read_text())
         for n, line in enumerate(code.splitlines(), 1):
             if FORBIDDEN.search(line):
